@@ -22,6 +22,15 @@ static bool g_delete_inplace = false;
 struct Action { int type; int leaf, inst, kind, ctx; };   // type 0: request_stop on the root source, 1: fire a pending event
 static std::vector<Action> g_actions;
 
+// KNOWN FINDING async_trace_chain_stops: adaptors whose internal receivers do not customise visit_continuations (the chain reported by
+// async_trace ends there); filled from the survey (--trace-survey=1), see known_findings.json
+static bool trace_blind_kind(int k) {
+  switch (k) {
+    case K_ANY: case K_LET_DONE: case K_LVWSS: case K_NEST: case K_NEST_CLOSED: case K_STOP_WHEN: return true;
+    default: return false;
+  }
+}
+
 static std::string key_str(int leaf, int inst, int kind) {
   if (kind == 2) return vk::sfmt("ctx%d-item#%d", leaf - 900, inst);
   return vk::sfmt("leaf%d#%d%s", leaf, inst, kind == 1 ? "(done-after-stop)" : "");
@@ -37,7 +46,8 @@ void begin_run(const ShapeDesc& sd, RunCtl& ctl, RunState& rs) {
   w.throw_at = ctl.plan.anon_fault;
   // KNOWN FINDING value_copy_throw_terminates: excluded by construction = value copies/moves never throw
   // (narrowed: only the shapes in which a throwing value copy can meet one of the unconditionally-noexcept set_value paths, see plan.hpp)
-  w.tracked_faults = !known("value_copy_throw_terminates") || !copy_throw_terminates_class(sd) || vk::ctx().argi("force-tracked-faults", 0);
+  w.tracked_faults = true;   // (the known finding value_copy_throw_terminates is excluded by detection, see vk_harness_init)
+  (void)sd;
   rs.ledger.id = 1;
   if (rs.use_inplace) rs.inplace = new unifex::inplace_stop_source();
   ctl.out = Outcome();
@@ -328,6 +338,23 @@ void end_run(const ShapeDesc& sd, RunCtl& ctl, RunState& rs) {
     if (!ctl.trait_sends_done) vk::ctx().label("trait:never-done");
     if (ctl.trait_affine) vk::ctx().label("trait:affine");
   }
+  // ---- C20 (continuation-visitation builds): async_trace from a leaf's receiver reports the chain up to the outermost receiver
+  for (size_t l = 0; l < w.runs.size(); ++l) for (size_t i = 0; i < w.runs[l].size(); ++i) {
+    auto& r = w.runs[l][i];
+    if (r.trace_root < 0) continue;
+    // kinds on the path from this leaf to the root of the expression
+    std::vector<int> path; {
+      std::function<bool(int)> find = [&](int idx) { const NodeDesc& n = sd.nodes[idx]; if ((n.kind == K_LEAF || n.kind == K_LEAFV || n.kind == K_LEAF_AI || n.kind == K_LEAF_ND) && n.a == (int)l) return true; for (int c2 = 0; c2 < n.nchild; ++c2) if (find(n.child[c2])) { path.push_back(n.kind); return true; } return false; };
+      find(sd.root);
+    }
+    std::set<int> ks(path.begin(), path.end()); std::string kl; for (int k : ks) { kl += kind_name(k); kl += ','; }
+    if (vk::ctx().argi("trace-survey", 0)) vk::ctx().label(std::string(r.trace_root ? "trace-ok:" : "trace-broken:") + kl);
+    else if (!r.trace_root) {
+      bool excused = false; for (int k : ks) if (trace_blind_kind(k) && known("async_trace_chain_stops")) excused = true;
+      if (!excused) SR_FAIL("C20", "async_trace_chain_broken", "async_trace() taken from the receiver of leaf%zu#%zu (%d entries) does not reach the outermost receiver although every adaptor on its path (%s) forwards continuation visitation [%s]", l, i, r.trace_len, kl.c_str(), sd.text);
+      else vk::ctx().label("async_trace-excused(known finding)");
+    } else vk::ctx().label("async_trace-reaches-root");
+  }
   // ---- C02: everything destroyed exactly once, nothing leaked
   if (!w.pending.empty()) SR_FAIL("C02", "pending_after_teardown", "%zu operation(s) still registered as in flight after the operation state was destroyed [%s]", w.pending.size(), sd.text);
   if (w.abandoned) { /* teardown of a running operation: lifetime oracles do not apply */ }
@@ -379,6 +406,18 @@ void end_run(const ShapeDesc& sd, RunCtl& ctl, RunState& rs) {
 
 }  // namespace ef
 
+// KNOWN FINDING value_copy_throw_terminates, excluded by detection: an injected throw from a value copy/move that reaches one of the
+// unconditionally-noexcept set_value paths ends in std::terminate; when that happens with the signature in --known the case is
+// counted as excluded and the shard continues in a fresh process (any other std::terminate is a crash like before)
+void vk_harness_init() {
+  std::set_terminate([] {
+    if (sr::world_ptr() && sr::W().fault_fired && std::strncmp(sr::W().fault_site, "Tracked", 7) == 0 && ef::known("value_copy_throw_terminates"))
+      vk::excluded_exit("known:value_copy_throw_terminates(std::terminate after an injected value copy/move throw)");
+    fprintf(stderr, "terminate called (harness handler)\n");
+    std::abort();
+  });
+}
+
 extern "C" const char* vk_harness_name() { return "exprfuzz"; }
 const char* vk_nontrivial_rule() {
   return "case = (shape from the generated static catalogue, per-leaf outcome lists {value,error(exception_ptr|Err),done} x {inline,deferred,on-stop-only} x completion context, "
@@ -418,6 +457,9 @@ void vk_run_case(vk::Choice& c) {
   cx.tr("CASE %s", cx.desc.c_str());
   // known findings are excluded by construction
   std::string known = "," + cx.arg("known") + ",";
+  if (known.find(",sender_for_hijacks_type_erasure_builtins,") != std::string::npos) {
+    for (int i = 0; i < sd.nnodes; ++i) if (sd.nodes[i].kind == K_ANY && sd.nodes[sd.nodes[i].child[0]].kind == K_SCHEDULE) { cx.discard = true; cx.discard_why = "known:sender_for_hijacks_type_erasure_builtins"; return; }
+  }
   if (known.find(",when_any_done_first,") != std::string::npos) {
     for (int i = 0; i < sd.nnodes; ++i) if (sd.nodes[i].kind == K_WHEN_ANY) { cx.discard = true; cx.discard_why = "known:when_any_done_first"; return; }
   }
